@@ -158,13 +158,13 @@ def _leaf_load(h, ts, d, strict):  # noqa: C901, PLR0911, PLR0912
         return (ACCEPT, None) if d is None else (REJECT, None)
     if h in ("Any", "object"):
         return ACCEPT, d
-    if h in ("bytes", "ByteString", "bytearray", "BytesIO"):
+    if h in ("bytes", "ByteString", "bytearray", "BytesIO", "IOBytes"):
         raw = _b64(d)
         if raw is None:
             return REJECT, None
         if h == "bytearray":
             return ACCEPT, bytearray(raw)
-        if h == "BytesIO":
+        if h in ("BytesIO", "IOBytes"):
             return ACCEPT, io.BytesIO(raw)
         return ACCEPT, raw
     if h == "Pattern":
@@ -474,7 +474,8 @@ def ref_dump(ts, x):  # noqa: C901, PLR0911, PLR0912
         return str(x)
     if h in ("bytes", "bytearray", "ByteString"):
         return base64.b64encode(bytes(x)).decode("ascii")
-    if h == "BytesIO":
+    if h in ("BytesIO", "IOBytes"):
+        # the whole content, wherever the stream position is
         return base64.b64encode(x.getvalue()).decode("ascii")
     if h == "Pattern":
         return x.pattern
